@@ -7,7 +7,7 @@ CONSTANTS
   Noises = {"default", "scalar", "diag"}
   Feats = {"named", "default", "int_labels"}
   INames = {"kind", "custom"}
-  Origins = {"fit", "fit_mem2", "fit_mem3", "hand", "edited"}
+  Origins = {"fit", "fit_mem2", "fit_mem3", "hand", "edited", "refit"}
   NameIsKindOK = TRUE
   UniSourcesOK = TRUE
   ScalarShapeOK = TRUE
